@@ -8,6 +8,12 @@ CLAIMS = {
    design_ref="DESIGN.md §4 C06",
    note="Partial for x86: the instruction semantics themselves are not modelled in Coq (only the shared flag formulas); native execution is the oracle. Subset and exclusions are listed in the evidence assumptions.",
    technique="Gallina reference interpreter + Coq proofs of flag formulas + model correspondence + differential testing against native execution"),
+ "C07": dict(
+   category="proof",
+   text="Coq theorems for the part of an x86 instruction's length that the decoder computes: the ModRM / SIB / displacement tail table of the Intel SDM is bounded (<= 2 bytes with 16-bit addressing, <= 5 otherwise), SIB-local (only rm=100 looks at the SIB byte, and only at its base field) and empty for register forms - for every byte value (finite domain, proved by reflection over all 65 536 ModRM x SIB pairs). Tie: getModRM's consumed bytes vs the table for all ModRM x SIB bytes and addressing sizes in both modes (19 384 cases by vm_compute). Whole instructions: byte strings (random, and from every shipped x86/x64 specification behind random prefixes/REX with random ModRM/SIB/displacement/immediate) which GNU objdump and LLVM both decode as a valid instruction of the same length - a vendored table of 28k entries plus live generation when the tools are installed - compared with amoco's length and relative-branch displacement.",
+   design_ref="DESIGN.md Part I §I.3 C07",
+   note="Partial: opcode-to-length for the ~1500 specifications is data compared differentially, not proved; only the first instruction of each string is compared.",
+   technique="Coq proof by reflection of the ModRM tail table + exhaustive model correspondence + differential testing against objdump and LLVM"),
  "C08": dict(
    category="proof",
    text="Refinement proof in Coq: the zone algorithms (locate/addtomap/mo.write/setpart/mergeparts/read/restruct/shift/merge) of a Gallina model mirroring system/memory.py refine a last-write-wins byte map for every write history (induction, no bound). The model is tied to /repo on every run by running identical histories on the real MemoryMap and on the model (vm_compute in coqc), comparing per-byte read results and part structure; an independent dict oracle searches for failing inputs.",
@@ -32,6 +38,12 @@ CLAIMS = {
    design_ref="DESIGN.md §4 C05",
    note="Trusted: Coq kernel; Dec model; harness/decmodel.py decode wrapper; generators. Not modelled: bodies of setup functions.",
    technique="Coq proof over call-skeleton model + regenerated table obligations + trace-driven correspondence + prefix/tail oracle"),
+ "C10": dict(
+   category="proof",
+   text="Coq theorems over the store model of shared expression nodes (C13/Heap, C10/History): whatever nodes a history of decode / execute / evaluate calls appends, a map built afterwards has node by node the values of the same map built first (relocation theorem), results computed earlier keep their values while later work only appends, and a history step that rewrites a base node (a global register's flag) is observable. Tie / search: for every cpu module and mode, in a fresh forked process per case (the parent imports the modules and never decodes), a block is decoded, mapped and evaluated on concrete states first; then a history of other spec-derived instructions is decoded, executed and partly evaluated under a monitor that walks the module-level register objects and decode-mode switches after every step; then the old map is re-evaluated and the block is rebuilt and re-evaluated: all three must agree; the monitor names the first instruction that wrote a global flag (root-cause key). One genuine defect repaired (RISC-V semantics writing sign flags of the shared registers).",
+   design_ref="DESIGN.md Part I §I.3 C10",
+   note="Partial: the model is structural (any operator semantics); that amoco's semantics functions only append nodes is observed per run, not proved.",
+   technique="Coq proofs of history-independence on a store model + fork-per-case before/after differential testing with a global-state monitor"),
  "C11": dict(
    category="proof",
    text="Coq theorems over the call-skeleton model: the pending-prefix slot is empty after every call whatever the setup functions do (accept/reject/raise), hence the outcome of a call is identical after any call history (memoryless), and returned bytes come from the current input only; a refutation witness shows the originally pinned code (no reset on raise) violates this - that defect was confirmed on the real code, repaired by a fix: commit and recorded as fixed. Tie: trace-driven correspondence incl. the pending-slot state after each call; search oracle: outcomes after random call histories (valid/invalid/truncated/prefix-only/raising/prefix+raising) vs outcomes from the cleared state; corpus of the minimised historical failures runs first.",
